@@ -271,10 +271,24 @@ def sign_table_expr(sym, expr: ast.AST, param_key: str, at=None) -> Dict[str, st
             c = sym.cmp(e.test, at)
             v = _sign_eval(c, param_key, s)
             if v is None:
-                raise AnalysisError(f"condition {cmp_key(c)} is not a sign test of {param_key}")
+                raise NotASignTable(f"condition {cmp_key(c)} is not a sign test of {param_key}")
             e = e.body if v else e.orelse
         out[s] = sym.canon(e, at)
     return out
+
+
+class NotASignTable(AnalysisError):
+    """The function is no longer a pure selection on the sign of its argument."""
+
+
+def sign_table_or_fail(ck, fa: FuncAnalysis, param: str, name: str) -> Optional[Dict[str, str]]:
+    """sign_table_func, reporting a VIOLATION (not an analysis error) when the
+    function has stopped being a sign-only selection."""
+    try:
+        return sign_table_func(fa, param)
+    except NotASignTable as e:
+        ck.fail("SIGN", name, fa.f.short, fa.f.loc, f"{fa.f.short} is no longer a function of the sign of `{param}` alone: {e}", construct=f"{fa.f.short} shape")
+        return None
 
 
 def sign_table_func(fa: FuncAnalysis, param: str) -> Dict[str, str]:
@@ -300,12 +314,12 @@ def _sign_walk(fa: FuncAnalysis, stmts, param: str, s: str) -> Optional[str]:
             c = fa.sym.cmp(st.test)
             v = _sign_eval(c, param, s)
             if v is None:
-                raise AnalysisError(f"{fa.f.short}: condition {cmp_key(c)} is not a sign test of {param}")
+                raise NotASignTable(f"condition {cmp_key(c)} is not a sign test of {param}")
             r = _sign_walk(fa, st.body if v else st.orelse, param, s)
             if r is not None:
                 return r
             continue
         if isinstance(st, (ast.Expr, ast.Pass)):
             continue
-        raise AnalysisError(f"{fa.f.short}: unsupported statement in sign-only function: {ast.unparse(st)[:60]}")
+        raise NotASignTable(f"statement `{ast.unparse(st)[:60]}` makes the result depend on more than the sign")
     return None
